@@ -15,14 +15,17 @@ from vflib import driver
 HARNESS = "c20_threads"
 SRCS = ["harness/c20_threads.c", "lib/vf.c"]
 
-# runs and operations (decode calls of thread A) per run
+# runs and operations (decode calls of thread A) per run.  Race reports and
+# hand-over orders vary from run to run, so the budget goes into many runs
+# (each with its own stream, yield seed and Teletext/time-stamp profile).
 PLAN = {
-    "quick":    {"a": (10, 3000), "b": (6, 1500)},
-    "thorough": {"a": (150, 8000), "b": (60, 4000)},
+    "quick":    {"a": (128, 4000), "b": (64, 3000)},
+    "thorough": {"a": (1500, 8000), "b": (600, 4000)},
 }
-STALL_S = 20          # no progress of any thread for this long => stall
+STALL_S = 20          # an API call that has not returned / no progress at all for this long => stall
 WALL_S = 900          # hard limit per process
 MAX_STACKS_PER_KEY = 6
+MAX_STALL_REPRO = 3   # distinct stall pictures reproduced in isolation
 
 
 def plan(tier):
@@ -31,15 +34,14 @@ def plan(tier):
     na, opa = PLAN[tier]["a"]
     nb, opb = PLAN[tier]["b"]
     for i in range(na):
-        p = {"p0": opa, "p1": 1 if i % 5 == 4 else 0, "p2": STALL_S, "p4": 0}
+        # p1: yield hook H2 off in one run of five; p4: thread count (bit 0: no
+        # second fetcher, bit 1: no channel switcher); p6: Teletext profile 0 = seeded
+        p = {"p0": opa, "p1": 1 if i % 5 == 4 else 0, "p2": STALL_S, "p4": (0, 0, 0, 1, 0, 0, 0, 0, 2, 0, 0, 3)[i % 12]}
         if tier == "thorough":
-            p["p4"] = (0, 0, 1, 2, 3, 0)[i % 6]          # vary the thread count
             p["p0"] = opa if i % 3 else opa // 2
         cases.append(("a", p))
     for i in range(nb):
-        p = {"p0": opb, "p1": 0, "p2": STALL_S, "p4": 0}
-        if tier == "thorough":
-            p["p4"] = (0, 0, 1)[i % 3]
+        p = {"p0": opb, "p1": 0, "p2": STALL_S, "p4": (0, 0, 1)[i % 3]}
         cases.append(("b", p))
     return cases
 
@@ -185,11 +187,17 @@ def run_one(exe, tier, seed, idx, mode, params, workdir, tag=None, gdb=False, ve
 
 
 def _stall_key(detail):
+    """deadlock:<calls that did not return> (blocked) or hang:<...> (spinning)"""
     m = re.search(r"phases (\S+) ;", detail or "")
+    kind = "hang" if re.search(r"kind spinning ;", detail or "") else "deadlock"
     if not m:
-        return "deadlock:?"
-    stuck = sorted(set(x.split("=", 1)[1] for x in m.group(1).split(",") if "=" in x) - {"done", "pace", "?"})
-    return "deadlock:" + "+".join(stuck or ["?"])
+        return kind + ":?"
+    stuck = set()
+    for x in re.split(r",(?=[A-D]=)", m.group(1)):
+        if "=" in x:
+            stuck.add(x.split("=", 1)[1].split("[", 1)[0])
+    stuck = sorted(stuck - {"done", "pace", "busy", "?"})
+    return kind + ":" + "+".join(stuck or ["no-progress"])
 
 
 def absorb(res, r, repo, jobname, idx, seen_stacks, stalls):
@@ -261,22 +269,41 @@ def custom(spec, tier, seed, res, repo):
             for fu in concurrent.futures.as_completed(futs):
                 i, m, p = futs[fu]
                 absorb(res, fu.result(), repo, m, i, seen, stalls)
-        # a stall counts only when it is reproduced in isolation (then with gdb stacks)
-        for idx, v in stalls[:4]:
-            m, p = cases[idx]
-            r2 = run_one(exe, tier, seed, idx, m, p, workdir, tag="stall%04d" % idx, gdb=True)
-            t2 = driver.Result(res.pid, tier, seed)
-            driver._collect(r2["outp"], {"name": m}, t2)
-            again = [x for x in t2.violations if x.key.startswith("stall:")]
-            if again or r2["timed_out"]:
-                d = again[0].detail if again else v.detail
-                res.violation(_stall_key(d), "reproduced in isolation: " + d, job=m, case=idx,
-                              stderr=r2["gdb"][-6000:], extra={"gdb": r2["gdb"]})
-            else:
-                res.inconclusive.append("stall in scenario %s case %d not reproduced in isolation (%s)" % (m, idx, v.detail[:200]))
+        # A stall counts only when it is reproduced in isolation (then with gdb
+        # stacks, DESIGN.md 1.3).  One representative per stall picture.
+        res.count("watchdog_expiries", len(stalls))
+        reps, rest = {}, 0
+        for idx, v in sorted(stalls, key=lambda t: t[0]):
+            k = _stall_key(v.detail)
+            if k not in reps and len(reps) < MAX_STALL_REPRO:
+                reps[k] = (idx, v)
+            elif k not in reps:
+                rest += 1
+        if rest:
+            res.inconclusive.append("%d further stalls with other pictures not re-run" % rest)
+        with concurrent.futures.ThreadPoolExecutor(max_workers=max(1, len(reps))) as ex:
+            futs = {}
+            for k, (idx, v) in reps.items():
+                m, p = cases[idx]
+                futs[ex.submit(run_one, exe, tier, seed, idx, m, p, workdir, "stall%04d" % idx, True)] = (k, idx, v, m)
+            for fu in concurrent.futures.as_completed(futs):
+                k, idx, v, m = futs[fu]
+                r2 = fu.result()
+                t2 = driver.Result(res.pid, tier, seed)
+                driver._collect(r2["outp"], {"name": m}, t2)
+                again = [x for x in t2.violations if x.key.startswith("stall:")]
+                n_same = sum(1 for _, w in stalls if _stall_key(w.detail) == k)
+                if again or r2["timed_out"]:
+                    d = again[0].detail if again else v.detail
+                    res.count("watchdog_expiries_reproduced", 1)
+                    res.violation(_stall_key(d), "watchdog expired in %d run(s), first in case %d; reproduced in isolation: %s" % (n_same, idx, d),
+                                  job=m, case=idx, stderr=r2["gdb"][-6000:], extra={"gdb": r2["gdb"], "first_expiry": v.detail})
+                else:
+                    res.inconclusive.append("stall in scenario %s case %d not reproduced in isolation (%s)" % (m, idx, v.detail[:300]))
         res.extra["tsan_distinct_stack_pairs"] = len(seen)
         res.extra["tsan_keys"] = sorted(set(k for k, d in seen))
         res.extra["runs"] = {"a": PLAN[tier]["a"][0], "b": PLAN[tier]["b"][0], "ops_per_run": {"a": PLAN[tier]["a"][1], "b": PLAN[tier]["b"][1]}}
+        res.extra["watchdog"] = {"stall_seconds": STALL_S, "expiries": len(stalls)}
         if os.environ.get("VERIF_KEEP"):
             driver.log("kept workdir " + workdir)
     finally:
@@ -299,7 +326,7 @@ def custom_replay(spec, rp, res, repo):
         for attempt in range(6):
             seen, stalls = {}, []
             r = run_one(exe, tier, seed, idx, m, p, workdir, tag="replay%d" % attempt,
-                        gdb=rp["key"].startswith("deadlock:"), verbose=True)
+                        gdb=rp["key"].startswith(("deadlock:", "hang:")), verbose=True)
             if attempt == 0:
                 driver.log("replay: " + r["cmd"])
             absorb(res, r, repo, m, idx, seen, stalls)
@@ -321,41 +348,55 @@ SPEC = {
     "id": "C20",
     "level": "exploration",
     "level_text": ("The documented cross-thread uses are executed for real under ThreadSanitizer (whole library instrumented): "
-                   "(a) one thread feeds vbi_decode with generated caption/XDS/Teletext/VPS traffic while two threads fetch caption pages 1-8, "
-                   "one requests channel switches and the caption event handler fetches too; (b) one thread runs vbi_raw_decode while two threads "
+                   "(a) one thread feeds vbi_decode with generated caption/XDS (network changes, ITV triggers)/VPS traffic and a Teletext page stream with rolling headers "
+                   "(same / other network / other magazine / damaged header: every outcome of the header comparison that reads the channel-switch countdown), "
+                   "with time stamp gaps that start the countdown, while two threads fetch caption pages 1-8, one requests channel switches (also while the countdown runs) "
+                   "and the event handler fetches on every event type; (b) one thread runs vbi_raw_decode while two threads "
                    "add/remove/check one service at a time. Every ThreadSanitizer report in library code is a violation; every concurrently fetched "
                    "page must equal a snapshot the decoding thread itself took inside the fetch's call/return window, every raw decode must equal the "
-                   "sequential reference of one service set possible inside its window; a watchdog catches deadlocks (reproduced before counted). "
+                   "sequential reference of one service set possible inside its window; bounded progress: every API call returns and the decoding thread finishes its "
+                   "operation count, judged by a 20 s per-call watchdog whose expiry must reproduce in isolation (then with gdb stacks) before it counts. "
                    "Held on the schedules that occurred (seeded yield hook H2 at the library's own unlock points widens them); not a proof over all interleavings."),
     "level_note": ("Trusted: gcc libtsan happens-before detection; the harness' tick clock (relaxed atomic counter - creates no happens-before edge; x86-64 locked RMW "
                    "gives real-time order); the window monitors in harness/c20_threads.c (self-tested on hand-made logs); the sequential single-thread pass "
-                   "that validates the raw-decoder reference on every run; the library's own signal simulator (vbi_raw_vbi_image) to draw the raw images."),
-    "technique": "runtime monitoring: ThreadSanitizer + snapshot/version window monitors + stall watchdog over seeded multi-threaded runs with yield hook H2",
-    "rule": ("one case = one seeded multi-threaded run (scenario a: 3-4 threads, b: 2-3 threads) of a few thousand operations per thread; "
-             "signature = observed hand-over: (thread, page, site where the decoder had dropped the mutex, number of candidate snapshots, old/new/only state obtained), "
+                   "that validates the raw-decoder reference on every run; the library's own signal simulator (vbi_raw_vbi_image) to draw the raw images; "
+                   "/proc/self/task/<tid>/stat for the blocked/starved/spinning distinction of the watchdog."),
+    "technique": "runtime monitoring: ThreadSanitizer + snapshot/version window monitors + bounded-progress watchdog (reproduced, gdb stacks) over seeded multi-threaded runs with yield hook H2",
+    "rule": ("one case = one seeded multi-threaded run (scenario a: 2-4 threads, b: 2-3 threads) of a few thousand operations per thread; "
+             "signature = observed lock hand-over: (thread, page, site where the decoder had dropped the mutex, number of candidate snapshots, old/new/only state obtained), "
              "order of foreign operations completing inside one vbi_decode call, (image, number of possible service states per toggler, first/later set obtained, services decoded), "
              "order of toggles between two decodes; trivial = run in which no foreign operation ever overlapped a decode call"),
     "assumptions": [
         "documented thread contract: vbi_decode is the only non-reentrant call (vbi.c doc comment); vbi_fetch_cc_page and vbi_channel_switched may be called from other threads; "
+        "vbi_fetch_cc_page is 'safe' to call from an event handler (caption.c doc comment); "
         "vbi_raw_decoder_add_services 'while already decoding', _remove_services 'at any time'",
         "a fetched page is compared on all vbi_page fields except the dirty hints, which every fetch consumes",
         "the blank page produced by a channel switch is admitted whenever the fetch window spans more than one snapshot (the reset can be overwritten within the same vbi_decode call)",
-        "handlers fetch only on VBI_EVENT_CAPTION (the library sends ASPECT/TRIGGER events on some paths with the caption mutex held)",
+        "time stamps violating the 1/30..1/25 s rule are legal input (documented as 'interpreted as frame dropping')",
         "raw images carry a fixed service per line; services are added with strict=0",
     ],
     "jobs": [],
     "custom": custom,
     "custom_replay": custom_replay,
-    "min_distinct": 150,
-    "min_evaluations": {"quick": 16, "thorough": 200},
+    "min_distinct": 400,
+    "min_evaluations": {"quick": 192, "thorough": 2100},
     "min_counters": {
-        "a_fetches_overlapping_decode": 1000,
-        "a_fetches_returning_inside_event_handler_gap": 50,
-        "a_channel_switch_requests": 50,
-        "a_caption_events": 1000,
-        "a_page_state_changes": 1000,
-        "b_decodes_overlapping_a_toggle": 500,
-        "b_toggles": 2000,
-        "b_check_services_calls": 300,
+        "a_fetches_overlapping_decode": 10000,
+        "a_fetches_returning_inside_event_handler_gap": 1000,
+        "a_channel_switch_requests": 1000,
+        "a_channel_switch_requests_during_decode": 300,
+        "a_caption_events": 10000,
+        "a_network_events": 500,
+        "a_trigger_events": 20,
+        "a_ttx_page_events": 5000,
+        "a_ttx_events_header_same": 2000,
+        "a_ttx_events_header_inconclusive": 500,
+        "a_ttx_header_text_network_changes": 200,
+        "a_time_stamp_gaps": 1000,
+        "a_ttx_rolling_pages_ended_within_40_frames_of_gap_damaged_header": 300,
+        "a_page_state_changes": 10000,
+        "b_decodes_overlapping_a_toggle": 5000,
+        "b_toggles": 20000,
+        "b_check_services_calls": 3000,
     },
 }
